@@ -176,6 +176,10 @@ func (w *c05HoldWriter) Stat(v any, f ...logx.LogField)      {}
 
 var c05Hold = c05NewHoldWriter()
 
+// c05WaitBlockedSeen: a Wait was seen blocked while a panic report was held (only on a changed tree); the
+// question is not asked again in this process (every answer would cost the full limit).
+var c05WaitBlockedSeen bool
+
 func c05StartRunner(cfg verifh.Cfg) (func(op []string) string, func()) {
 	n := cfg.Int("n", 1)
 	rp := NewTaskRunner(n)
@@ -226,19 +230,16 @@ func c05StartRunner(cfg verifh.Cfg) (func(op []string) string, func()) {
 		g := running[0]
 		running = running[1:]
 		before := len(rp.limitChan)
-		c05Hold.Arm()
+		// a panic (any value) is reported by rescue.Recover; runtime.Goexit is not (recover() yields nil): nothing to hold
+		reported := false
+		if kind == 's' || kind == 'e' {
+			c05Hold.Arm()
+		}
 		g.ch <- kind
 		<-g.done
-		reported := false
-		c5.WaitUntil(10*time.Second, func() bool {
-			if len(c05Hold.Parked) > 0 {
-				reported = true
-				return true
-			}
-			return runtime.NumGoroutine() <= base+len(running)+stuckWaits
-		})
-		if !reported && len(c05Hold.Parked) > 0 {
-			reported = true
+		if kind == 's' || kind == 'e' {
+			// the report arrives (a tree that no longer reports panics costs this timeout once per op)
+			reported = c5.WaitUntil(10*time.Second, func() bool { return len(c05Hold.Parked) > 0 })
 		}
 		res := "report=none"
 		var waitDone chan struct{}
@@ -247,13 +248,17 @@ func c05StartRunner(cfg verifh.Cfg) (func(op []string) string, func()) {
 			if len(rp.limitChan) >= before {
 				slot = "held"
 			}
-			if len(running) == 0 && !wgLeaked {
+			if len(running) == 0 && !wgLeaked && !c05WaitBlockedSeen {
+				// Done has been called before the report is written, so Wait returns as soon as its goroutine runs;
+				// a generous limit (the machine may be loaded) that is only ever used up on a tree where Wait does
+				// block — there once per process
 				waitDone = make(chan struct{})
 				go func(d chan struct{}) { rp.Wait(); close(d) }(waitDone)
-				if c5.WaitUntil(2*time.Second, closed(waitDone)) {
+				if c5.WaitUntil(10*time.Second, closed(waitDone)) {
 					wait, waitDone = "returns", nil
 				} else {
 					wait = "blocked"
+					c05WaitBlockedSeen = true
 				}
 			}
 			res = fmt.Sprintf("report=held slot=%s wait=%s", slot, wait)
@@ -263,12 +268,7 @@ func c05StartRunner(cfg verifh.Cfg) (func(op []string) string, func()) {
 			stuckWaits++
 			wgLeaked = true
 		}
-		c5.WaitUntil(5*time.Second, func() bool {
-			return len(rp.limitChan) < before || runtime.NumGoroutine() <= base+len(running)+stuckWaits
-		})
-		for i := 0; i < 50 && len(rp.limitChan) >= before; i++ {
-			runtime.Gosched()
-		}
+		c5.WaitUntil(5*time.Second, func() bool { return len(rp.limitChan) < before })
 		if len(rp.limitChan) < before {
 			return "ok " + res
 		}
